@@ -192,9 +192,10 @@ func (r *Recogniser) canFinish(k *frame, pos int) bool {
 
 // Node is a derivation tree node: a rule with children or a token.
 type Node struct {
-	Rule  string
-	Token string
-	Ch    []*Node
+	Rule       string
+	Token      string
+	Ch         []*Node
+	Start, End int // token span of a rule node
 }
 
 func (n *Node) String() string {
@@ -228,6 +229,7 @@ func (r *Recogniser) Parse(start string, sentence TokSeq) (bool, *Node) {
 	}
 	root := &Node{Rule: start}
 	pos, good := r.buildAlts(rule.Alts, 0, nil, root)
+	root.End = pos
 	if !good || pos != len(r.toks) {
 		return true, nil // accepted, but the preferred tree could not be reconstructed (should not happen)
 	}
@@ -326,9 +328,11 @@ func (r *Recogniser) buildOne(e *Elem, pos int, k *frame, parent *Node) (int, bo
 		return pos + 1, true
 	case ERuleRef:
 		rule := r.G.ByName[e.Name]
-		n := &Node{Rule: rule.Name}
+		n := &Node{Rule: rule.Name, Start: pos}
 		parent.Ch = append(parent.Ch, n)
-		return r.buildAlts(rule.Alts, pos, &frame{closeRule: true, next: k}, n)
+		np, ok := r.buildAlts(rule.Alts, pos, &frame{closeRule: true, next: k}, n)
+		n.End = np
+		return np, ok
 	case EBlock:
 		return r.buildAlts(e.Alts, pos, k, parent)
 	}
